@@ -60,6 +60,10 @@ def admissible(inputs, output):
 
 
 FIXED4 = [
+    # a hyper index (on three tensors) that appears LATE in the order of first appearance on one side of a join and
+    # EARLY on the other (the finder keeps legs sorted by that order)
+    (("ya", "ah", "hb", "hc"), "ybc"),
+    (("hb", "hc", "ya", "ah"), "ybc"),
     (("ab", "bc", "cd", "da"), ""),
     (("ab", "bc", "cd", "dae"), "e"),
     (("abe", "bc", "cde", "da"), ""),  # hyper index e on two tensors + ... (e appears twice -> ordinary)
@@ -69,6 +73,7 @@ FIXED4 = [
     (("ab", "bc", "ca", "ad"), "d"),
 ]
 FIXED5 = [
+    (("xy", "ya", "ah", "hb", "hc"), "xbc"),
     (("ab", "bc", "cd", "de", "ea"), ""),
     (("ab", "bc", "cd", "de", "ef"), "af"),
     (("ab", "ac", "ad", "ae", "bcde"), ""),
@@ -87,7 +92,7 @@ def items(tier, seed):
             for obj in OBJECTIVES:
                 for outer in (False, True):
                     its.append({"inputs": list(s[0]), "output": s[1], "obj": obj, "outer": outer, "D": 3, "mode": "all", "tier": tier})
-        for si, s in enumerate(sk4[:5]):
+        for si, s in enumerate(sk4[:6]):
             labels = skel.all_labels(s[0])
             for li, lab in enumerate(labels):
                 # quick: one (rotating) objective per (network, label), both outer modes
